@@ -29,6 +29,7 @@ macro_rules! with_world {
             "chunk" => $body::<worlds::chunk::ChunkWorld>($($args),*),
             "box" => $body::<worlds::boxw::BoxWorld>($($args),*),
             "stream" => $body::<worlds::stream::StreamWorld>($($args),*),
+            "verifier" => $body::<worlds::verifier::VerifierWorld>($($args),*),
             other => {
                 eprintln!("unknown world {} in this build ({})", other, plan::build_name());
                 2
